@@ -24,6 +24,24 @@ def variants(spec, gi, flip, seed=0, cap=12):
         yield f"subgraph({scr}) (all atoms, scrambled order)", g.subgraph(scr)
         yield "compose([g])", type(g).compose([g])
         yield "copy-constructed", type(g)(g)
+    if atoms:
+        # a scratch atom is added, bonded and removed again; then its identifier is re-used (by a renaming / by a second scratch atom)
+        ints = [a for a in atoms if isinstance(a, int)]
+        t = (max(ints) if ints else 0) + 7
+        bonded = sorted({x for b in g.bonds for x in b}, key=repr)
+        a0 = bonded[0] if bonded else atoms[0]
+        h = g.copy()
+        h.add_atom(t, "H")
+        h.add_bond(t, a0)
+        h.remove_atom(t)
+        yield f"copy + add_atom({t}) + add_bond({t},{a0}) + remove_atom({t})", h.copy()
+        a1 = [a for a in atoms if a != a0][-1] if len(atoms) > 1 else a0
+        h2 = h.copy()
+        h2.relabel_atoms({a1: t}, copy=False)
+        yield f"scratch atom {t} added/bonded/removed, then relabel_atoms({{{a1}: {t}}}, copy=False)", h2
+        h.add_atom(t, "H")
+        h.remove_atom(t)
+        yield f"scratch atom {t} added/bonded/removed, added again and removed", h
     yield "re-inserted in another order", gl.build(tmpl.reorder(spec, rng))
     rw = tmpl.rewrite(spec, gi, flip)
     yield f"descriptors rewritten (group element {gi}, flip={flip})", gl.build(rw)
